@@ -27,6 +27,16 @@ def sup_case(draw, nmax=10, kinds=("sup",), nq=(0, 0), nu=(0, 0), modes=("pre", 
         W, wm = draw(gen.weight_matrix(m, mode=wmode))
         case["W"] = W
         case["wmode"] = wm
+        if draw(st.integers(0, 2)) > 0:
+            # node a uses row rows[a] of the library's matrix: train / query rows in arbitrary order inside a bigger matrix;
+            # unlabeled samples must sit at rows nt..nt+nu-1 (the only layout the semi-supervised API can express)
+            extra = draw(st.integers(0, 3))
+            n_rows = m + extra
+            fixed = list(range(nt, nt + n_u))
+            free = [r_ for r_ in range(n_rows) if r_ not in fixed]
+            perm = list(draw(st.permutations(free)))
+            case["rows"] = perm[:nt] + fixed + perm[nt:nt + n_q]
+            case["fill"] = draw(st.sampled_from([0.0, 0.25, 7.25, 1e9]))
     else:
         name = draw(st.sampled_from(metrics or M.MODEL_METRICS))
         kind = draw(st.sampled_from(gen.metric_point_kind(name)))
@@ -78,14 +88,20 @@ def run(case, predict=True, check_diag=True):
     if case["mode"] == "pre":
         Wfull = case["W"]
         model = libcall(cls)
-        models.set_pre(model, Wfull)
+        rows = case.get("rows") or list(range(ntr + nq))
+        M = max(rows) + 1 if rows else 0
+        P = [[float(case.get("fill", 0.0))] * M for _ in range(M)]
+        for a in range(ntr + nq):
+            for b in range(ntr + nq):
+                P[rows[a]][rows[b]] = Wfull[a][b]
+        models.set_pre(model, P)
         Xtr = models.index_features(nt)
         Xun = models.index_features(nu, nt)
         Xq = models.index_features(nq, ntr)
         r.W = [row[:ntr] for row in Wfull[:ntr]]
         r.DQ = [[Wfull[t][ntr + q] for t in range(ntr)] for q in range(nq)]
-        I_tr = np.arange(nt)
-        I_q = np.arange(ntr, ntr + nq)
+        I_tr = np.array(rows[:nt], dtype=int)
+        I_q = np.array(rows[ntr:], dtype=int)
     else:
         name = case["metric"]
         X = [list(map(float, p)) for p in case["X"]]
@@ -116,4 +132,5 @@ def run(case, predict=True, check_diag=True):
     if predict and nq:
         r.preds = [int(v) for v in libcall(model.predict, Xq, I_q)]
     r.Xq, r.I_q = Xq, I_q
+    r.Xtr, r.I_tr = Xtr, I_tr
     return r
